@@ -1,4 +1,5 @@
 /- line protocol for C19: one pure call per line, evaluated on the *generated* definitions -/
+import SemaModel.Base.DriverUtil
 import SemaModel.Generated.Sortable
 import SemaModel.Generated.Keys
 import SemaModel.Generated.Conversion
@@ -64,3 +65,6 @@ def step (line : String) : String :=
   | _ => bad
 
 end Sema.C19
+
+def Sema.C19.driverMain (stdin stdout : IO.FS.Stream) (_args : List String) : IO Unit :=
+  Sema.loopPure stdin stdout Sema.C19.step
